@@ -11,7 +11,7 @@ from concurrent.futures import ThreadPoolExecutor
 from vlib import core
 from vlib.checks.c07 import audit
 
-OPS = ["get-result", "get-blob", "head-blob", "put-blob-early", "put-blob-late", "put-result-early", "put-result-late"]
+OPS = ["get-result", "get-blob", "head-blob", "put-blob-early", "put-blob-late", "put-result-early", "put-result-late", "local-cas"]
 
 
 def write_ws(ws, key, remote):
@@ -45,7 +45,7 @@ def store_items(cachedir, keymap):
     return out
 
 
-def replay_one(grog, hbin, hist, base):
+def replay_one(grog, hbin, hist, base, audit_always=False):
     os.makedirs(base)
     ws = os.path.join(base, "ws")
     s3dir = os.path.join(base, "s3")
@@ -87,13 +87,28 @@ def replay_one(grog, hbin, hist, base):
             open(hook, "w").close()
             oplog = os.path.join(s3dir, "_oplog")
             before_ops = len(open(oplog).read().splitlines()) if os.path.exists(oplog) else 0
-            env = dict(os.environ, GROG_ROOT=roots[m], HOME=base, GROG_VERIF_S3DIR=s3dir, GROG_VERIF_S3FAULTS=",".join(act["f"]), GROG_VERIF_TRACE=hook,
+            broken = None
+            if "local-cas" in act["f"]:
+                # the machine's local blob directory becomes a plain file for the duration of this build (it holds no blob: model precondition)
+                cdir = os.path.join(roots[m], wsprefix, "cache")
+                os.makedirs(cdir, exist_ok=True)
+                broken = os.path.join(cdir, "cas")
+                if os.path.isdir(broken):
+                    if any(not f.startswith("tmp-") for f in os.listdir(broken)):
+                        mism.append(dict(step=i, kind="harness-local-cas-not-empty"))
+                        break
+                    shutil.rmtree(broken)
+                open(broken, "w").close()
+            env = dict(os.environ, GROG_ROOT=roots[m], HOME=base, GROG_VERIF_S3DIR=s3dir, GROG_VERIF_S3FAULTS=",".join(x for x in act["f"] if x != "local-cas"), GROG_VERIF_TRACE=hook,
                        AWS_ACCESS_KEY_ID="x", AWS_SECRET_ACCESS_KEY="y", AWS_REGION="us-east-1")
             try:
                 p = subprocess.run([grog, "build", "//..."], cwd=ws, env=env, capture_output=True, text=True, timeout=90)
             except subprocess.TimeoutExpired:
                 mism.append(dict(step=i, kind="build-hangs", act=act))
                 break
+            finally:
+                if broken and os.path.isfile(broken):
+                    os.remove(broken)
             for l in open(hook):
                 try:
                     e = json.loads(l)
@@ -141,7 +156,7 @@ def replay_one(grog, hbin, hist, base):
             break
     # audit of the remote store as the last successful build left it
     dangling = []
-    if os.path.isdir(remote_dir) and not mism:
+    if os.path.isdir(remote_dir) and (not mism or audit_always):
         rep = audit(hbin, remote_dir, "xxh3", base, "remote")
         for r in rep["results"]:
             if not r["decodes"]:
@@ -152,11 +167,12 @@ def replay_one(grog, hbin, hist, base):
     return mism, dangling, put_traces
 
 
-def generate(tmp, name, depth, num, seed, faults):
+def generate(tmp, name, depth, num, seed, faults, systematic=False):
     full = "FALSE" if os.environ.get("VERIF_REMOTE_ASIS") else "TRUE"   # development aid: replay the counter-model instead
-    cfg = f"SPECIFICATION GSpec\nCONSTANTS\n  FullCheck = {full}\n  MaxFaults = {faults}\n  MaxSteps = {depth}\nINVARIANTS Emit\nCHECK_DEADLOCK FALSE\n"
+    cfg = (f"SPECIFICATION GSpec\nCONSTANTS\n  FullCheck = {full}\n  MaxFaults = {faults}\n  MaxSteps = {depth}\n  Systematic = {'TRUE' if systematic else 'FALSE'}\n"
+           "INVARIANTS Emit\nCHECK_DEADLOCK FALSE\n")
     res = core.tlc(os.path.join(tmp, "gen_" + name), "RemoteGen.tla", "g.cfg", workers=1, timeout=900, files={"g.cfg": cfg},
-                   extra=["-simulate", f"num={num}", "-depth", str(depth + 2), "-seed", str(seed)], heap="4g")
+                   extra=[] if systematic else ["-simulate", f"num={num}", "-depth", str(depth + 2), "-seed", str(seed)], heap="4g")
     hs = []
     for line in res.out.splitlines():
         if line.startswith('<<"TRACEJSON", '):
@@ -164,6 +180,17 @@ def generate(tmp, name, depth, num, seed, faults):
     if not hs:
         raise core.Infra("no remote behaviours generated:\n" + res.out[-1500:])
     return res, hs
+
+
+def local_fault_behaviours(chk, tmp, grog, hbin, quick):
+    """For C07: the systematic behaviours in which the local blob directory is broken during one build, replayed with the remote
+    store audited whatever else happened (every visible blob must have the content its digest names)."""
+    res, hs = generate(tmp, "lf", 4 if quick else 5, 0, chk.seed, 1, True)
+    hs = [h for h in hs if any("local-cas" in (s["act"].get("f") or []) for s in h)]
+    chk.add_tlc("RemoteGen enumerate: behaviours with a broken local blob directory during one build (tiered cache)", res, behaviours=len(hs))
+    with ThreadPoolExecutor(core.NCPU) as ex:
+        results = list(ex.map(lambda ih: replay_one(grog, hbin, ih[1], os.path.join(tmp, f"lf_{ih[0]}"), audit_always=True), enumerate(hs)))
+    return list(zip(hs, results))
 
 
 def run(chk, tmp, replay=None):
@@ -174,16 +201,17 @@ def run(chk, tmp, replay=None):
     chk.add_tlc("Remote exhaustive: all orders of builds on A and B (with/without the remote), edits, vanished objects, <= 2 remote faults; NoDanglingRemote, SuccessMeansStored", res)
     grog = core.build_grog(tmp)
     hbin = core.build_harness(tmp)
-    batches = [("faultfree", 6, 24 if quick else 300, 0), ("faults", 6, 40 if quick else 500, 2)]
+    batches = [("faultfree", 6, 24 if quick else 300, 0, False), ("faults", 6, 40 if quick else 500, 2, False),
+               ("systematic: build on A; action(s); build with <= 1 fault; build on B", 4 if quick else 5, 0, 1, True)]
     chk.cov["rule"] = ("one evaluation = one TLC-generated behaviour (builds on two machines, edits, dropped remote objects, fault plans) stepped through the real CLI with both local caches and the "
                        "remote store compared after every step; distinct = distinct action sequence; non-trivial = at least one build with the remote configured")
     chk.cov["bounds"] = {"model": "one target, one output blob, two keys (before/after an output-preserving edit), machines A and B", "fault_ops": OPS}
     all_puts = []
-    for tag, depth, num, faults in batches:
-        res, hs = generate(tmp, tag, depth, max(1, num // 2), chk.seed * 10 + len(tag), faults)
-        chk.add_tlc(f"RemoteGen simulate {tag}", res, behaviours=len(hs))
+    for bi, (tag, depth, num, faults, systematic) in enumerate(batches):
+        res, hs = generate(tmp, f"b{bi}", depth, max(1, num // 2), chk.seed * 10 + len(tag), faults, systematic)
+        chk.add_tlc(f"RemoteGen {'enumerate' if systematic else 'simulate'} {tag}", res, behaviours=len(hs))
         with ThreadPoolExecutor(core.NCPU) as ex:
-            results = list(ex.map(lambda ih: replay_one(grog, hbin, ih[1], os.path.join(tmp, f"rm_{tag}_{ih[0]}")), enumerate(hs)))
+            results = list(ex.map(lambda ih: replay_one(grog, hbin, ih[1], os.path.join(tmp, f"rm_{bi}_{ih[0]}")), enumerate(hs)))
         for h, (mism, dangling, puts) in zip(hs, results):
             chk.cov["traces_validated_against_impl"] += 1
             seq = tuple((s["act"]["kind"], s["act"].get("m"), s["act"].get("remote"), tuple(s["act"].get("f", []))) for s in h)
